@@ -128,7 +128,8 @@ def mat(rng, m, n, sparse=0.3, den=4, lo=-2, hi=2):
 
 FORMS_BASIC = ['full', 'full', 'list', 'slice']
 FORMS_ALL = ['full', 'full', 'list', 'neglist', 'slice', 'negslice', 'int', 'tuple', 'ellipsis', 'nonflat_list']
-FMT_ALL = ['dense', 'dense_cp', 'coo', 'coo_cp', 'csr', 'csc', 'coo_sp', 'diag']
+FMT_ALL = ['dense', 'dense_cp', 'coo', 'coo_cp', 'csr', 'csc', 'coo_sp', 'diag', 'csr_cp', 'csc_cp', 'coosp_cp']
+SPARSE_CP = ('csr_cp', 'csc_cp', 'coosp_cp')     # scipy sparse value, assigned anew at every linearization
 
 
 def _gen_world_once(rng, k):
@@ -307,6 +308,24 @@ def _gen_world_once(rng, k):
             world['solvers']['']['ln'] = 'direct'
     # implicit components without their own solve need Newton at the owning group: we always give the
     # stub a solve_nonlinear/solve_linear, so run-once stacks stay valid.
+    # ---- optionally two sibling components whose names are string prefixes of each other (c1 / c1x): path
+    # matching by string prefix instead of by path component then confuses them
+    if K.get('prefix_sibling') and rng.random() < K['prefix_sibling']:
+        bygrp = {}
+        for c in comps:
+            if c['kind'] != 'ivc':
+                bygrp.setdefault(c['group'], []).append(c)
+        pairs = [v for v in bygrp.values() if len(v) >= 2]
+        if pairs:
+            grp = rng.choice(pairs)
+            a_, b_ = rng.sample(grp, 2)
+            new = a_['name'] + 'x'
+            if world.get('cycle'):
+                for k_ in ('early', 'late'):
+                    if world['cycle'][k_] == b_['name']:
+                        world['cycle'][k_] = new
+            b_['name'] = new
+            world['prefix_pair'] = [a_['name'], new]
     # ---- insertion order
     world['order'] = _orders(rng, world, K['shuffle'])
     world['auto_order'] = bool(K['shuffle'])
@@ -375,7 +394,8 @@ def _fill_math(rng, comp, K):
         comp['quad'] = {'out': o['name'], 'in': inp['name'], 'coef': [dyadic(rng, -1, 1, 8) for _ in range(m)],
                         'normalise': True}
         key = o['name'] + '|' + inp['name']
-        comp['fmt'][key] = 'dense_cp'     # the quadratic term fills column 0 whatever A's pattern is
+        # the quadratic term fills column 0 whatever A's pattern is (the sparse forms store that column)
+        comp['fmt'][key] = rng.choice(['dense_cp', 'dense_cp'] + [f for f in SPARSE_CP if f in K['fmts']])
     if comp['kind'] == 'aff' and rng.random() < K['mf']:
         comp['mf'] = True
     if comp['kind'] in ('aff', 'imp') and not comp.get('mf') and rng.random() < K['approx'] and \
